@@ -9,6 +9,8 @@ CONSTANTS N, RtLen, RtTuple, Emit
 
 Dom == Strings(N)
 C15_DecodeIsRef(s) == All(s) = RefLines(s)
+\* decode_eof alone yields the same lines (it is also called on buffers that still hold complete lines)
+C15_EofOnlyIsRef(s) == EofOnly(s) = RefLines(s)[1] \o RefLines(s)[2]
 Vec(s) == [in |-> s, dec |-> All(s)[1], eof |-> All(s)[2]]
 
 \* round trip
@@ -25,6 +27,7 @@ RtVec(t) == [items |-> t, enc |-> EncAll(t), dec |-> AllFlat(EncAll(t)),
 ASSUME PrintT(<<"COUNTS", ToJson([strings |-> Cardinality(Dom), rtstrings |-> Cardinality(RtStrings),
                                   tuples |-> Cardinality(Tuples)])>>)
 ASSUME C15_Decode == \A s \in Dom : C15_DecodeIsRef(s) /\ (Emit => PrintT(<<"VEC", ToJson(Vec(s))>>))
+ASSUME C15_EofOnly == \A s \in Dom : C15_EofOnlyIsRef(s)
 ASSUME C15_Encode == \A s \in RtStrings : C15_EncodeOneLF(s)
 ASSUME C15_RT == \A t \in Tuples : C15_RoundTrip(t) /\ (Emit => PrintT(<<"RT", ToJson(RtVec(t))>>))
 
